@@ -260,7 +260,7 @@ def case_model(**p):
         piece_sets.append([(a, b_) for ai, a in enumerate(pieces) for bi, b_ in enumerate(pieces) if ai <= bi])
       else:
         piece_sets.append([(a, a) for a in pieces])
-    all_pieces = list(itertools.product(*piece_sets)) if p.get('split', True) else [None]
+    all_pieces = list(itertools.product(*piece_sets)) if p.get('split', False) else [None]
     for combo, pc in itertools.product(combos, all_pieces):
       for i, cval in zip(cat_other, combo):
         xs[i] = sym.obj(np.array([[float(cval)], [float(cval)]]))
@@ -360,7 +360,13 @@ def replay(r):
 def cases(tier, seed):
   out = []
   for m in _models(tier):
-    hard = m[0] in ('calibrated-lattice-kfl', 'ensemble-rtl', 'ensemble-linear-combination', 'calibrated-lattice-output-calibration')
-    out.append(dict(name=m[0], fn='case_model', params=dict(name=m[0], model=m[0], tier=tier, required=not hard, timeout=120 if tier == 'quick' else 600),
+    hard = m[0] in ('calibrated-lattice-kfl', 'ensemble-rtl', 'ensemble-rtl-unconstrained-first', 'ensemble-explicit', 'ensemble-linear-combination',
+                    'calibrated-lattice-output-calibration')
+    out.append(dict(name=m[0], fn='case_model', params=dict(name=m[0], model=m[0], tier=tier, required=not hard, split=False,
+                                                            timeout=(40 if hard else 90) if tier == 'quick' else 300),
                     cap=1800, required=not hard))
+    if tier == 'thorough' and hard:
+      nm = m[0] + '-by-pieces'
+      out.append(dict(name=nm, fn='case_model', params=dict(name=nm, model=m[0], tier=tier, required=False, split=True, timeout=120),
+                      cap=7200, required=False))
   return out
